@@ -15,6 +15,23 @@ import (
 	"verif/uni"
 )
 
+// signatures of the genuine defects found on the unchanged tree (FINDINGS.md)
+const (
+	sigMultiMatrixLevel = "C18/dft/level-with-several-matrices-consumes-a-prime-per-matrix"
+	sigCISparse         = "C18/func/conjugate-invariant-input-sparser-than-LogSlots"
+	sigCopyN1           = "C18/copy/ShallowCopy-drops-xPow2InvN1"
+)
+
+// multiMatrixLevel reports whether a [level][scales] split puts several matrices on one prime.
+func multiMatrixLevel(split [][]int) bool {
+	for _, l := range split {
+		if len(l) > 1 {
+			return true
+		}
+	}
+	return false
+}
+
 const floatPrec = 192 // bits of the reference arithmetic (the PREC128 configurations reach > 53 bits)
 
 // message returns the test vector of ciphertext j: distinct values in every slot and across the batch (a swapped,
@@ -123,6 +140,25 @@ func runFunctional(c *engine.Chooser, k cfg) {
 	res := s.res
 	realOnly := res.RingType() == ring.ConjugateInvariant
 	ctLog := k.ctLogSlots()
+	// Input classes that hit a defect recorded in FINDINGS.md get that defect's single signature for whatever
+	// goes wrong after the bootstrap (error, level, scale, precision): one defect, one sig; every other leaf keeps the
+	// specific sigs. Key-level oracles above are not affected.
+	known := ""
+	switch {
+	case multiMatrixLevel(c2sSplits[k.C2S]) || multiMatrixLevel(s2cSplits[k.S2C]):
+		known = sigMultiMatrixLevel
+	case realOnly && ctLog < s.btp.LogMaxSlots():
+		known = sigCISparse
+	case k.Copy && (k.Residual == 1 || k.Residual == 3) && k.CtGap > 0 && k.Batch > 0:
+		// ShallowCopy + ring-degree switch + several sparse ciphertexts packed in the small ring
+		known = sigCopyN1
+	}
+	fail := func(sig, format string, args ...interface{}) {
+		if known != "" {
+			sig = known
+		}
+		c.Fail(sig, format, args...)
+	}
 	level := k.InLevel
 	if k.Iter != 0 {
 		level = res.MaxLevel()
@@ -154,50 +190,75 @@ func runFunctional(c *engine.Chooser, k cfg) {
 		cts[j] = *ct
 	}
 
+	ev := s.eval
+	if k.Copy {
+		// dirty the original's buffers with one bootstrap of an unrelated ciphertext, then work on the copy
+		pt := ckks.NewPlaintext(res, level)
+		pt.LogDimensions = ring.Dimensions{Rows: 0, Cols: ctLog}
+		if err := ecd.Encode(message(1<<ctLog, 7, amp, realOnly), pt); err != nil {
+			panic(fmt.Sprintf("harness: encode: %v", err))
+		}
+		ct, err := enc.EncryptNew(pt)
+		if err != nil {
+			panic(fmt.Sprintf("harness: encrypt: %v", err))
+		}
+		if _, err = s.eval.BootstrapMany([]rlwe.Ciphertext{*ct}); err != nil {
+			fail("C18/func/bootstrap-error", "%s: warm-up bootstrap on the original evaluator: %v", key, err)
+			return
+		}
+		ev = s.eval.ShallowCopy()
+	}
 	var out []rlwe.Ciphertext
 	var err error
-	if n == 1 && !realOnly {
-		var o *rlwe.Ciphertext
-		if o, err = s.eval.Bootstrap(&cts[0]); err == nil {
-			out = []rlwe.Ciphertext{*o}
+	_, panicked := uni.Try(func() error {
+		if n == 1 && !realOnly {
+			var o *rlwe.Ciphertext
+			if o, err = ev.Bootstrap(&cts[0]); err == nil {
+				out = []rlwe.Ciphertext{*o}
+			}
+			c.Cover("api", "Bootstrap")
+		} else {
+			out, err = ev.BootstrapMany(cts)
+			c.Cover("api", "BootstrapMany")
 		}
-		c.Cover("api", "Bootstrap")
-	} else {
-		out, err = s.eval.BootstrapMany(cts)
-		c.Cover("api", "BootstrapMany")
+		return nil
+	})
+	if panicked != nil {
+		fail("C18/func/bootstrap-panic", "%s: panic: %v", key, panicked)
+		return
 	}
 	checkRequests(c, key, s.rec)
 	if err != nil {
-		c.Fail("C18/func/bootstrap-error", "%s: %v", key, err)
+		fail("C18/func/bootstrap-error", "%s: %v", key, err)
 		return
 	}
 	if len(out) != n {
-		c.Fail("C18/func/batch-size", "%s: %d ciphertexts in, %d out", key, n, len(out))
+		fail("C18/func/batch-size", "%s: %d ciphertexts in, %d out", key, n, len(out))
 		return
 	}
 	worst := math.Inf(1)
 	for j := range out {
 		o := &out[j]
-		if o.Level() != s.eval.OutputLevel() {
-			c.Fail("C18/func/output-level", "%s: ct %d at level %d, OutputLevel()=%d", key, j, o.Level(), s.eval.OutputLevel())
+		if o.Level() != ev.OutputLevel() {
+			fail("C18/func/output-level", "%s: ct %d at level %d, OutputLevel()=%d", key, j, o.Level(), ev.OutputLevel())
 		}
 		if !o.Scale.Equal(res.DefaultScale()) {
-			c.Fail("C18/func/output-scale", "%s: ct %d scale 2^%.6f, default scale 2^%.6f", key, j, o.Scale.Log2(), res.DefaultScale().Log2())
+			fail("C18/func/output-scale", "%s: ct %d scale 2^%.6f, default scale 2^%.6f", key, j, o.Scale.Log2(), res.DefaultScale().Log2())
 		}
 		if o.LogDimensions.Cols != ctLog {
-			c.Fail("C18/func/output-logslots", "%s: ct %d LogSlots %d, input had %d", key, j, o.LogDimensions.Cols, ctLog)
+			fail("C18/func/output-logslots", "%s: ct %d LogSlots %d, input had %d", key, j, o.LogDimensions.Cols, ctLog)
 			return
 		}
 		have := make([]*bignum.Complex, 1<<ctLog)
 		if err := ecd.Decode(dec.DecryptNew(o), have); err != nil {
-			c.Fail("C18/func/decode-error", "%s: %v", key, err)
+			fail("C18/func/decode-error", "%s: %v", key, err)
 			return
 		}
 		if p := precisionBits(want[j], have); p < worst {
 			worst = p
 		}
 	}
-	judgePrecision(c, "func", key, worst)
+	judgePrecision(c, "func", key, worst, known)
 	c.Cover("logN", fmt.Sprint(k.LogN))
 	c.Cover("ctLogSlots", slotBucket(ctLog, k.residualLogN(), realOnly))
 	c.Outcome(key, int(worst))
